@@ -2,6 +2,7 @@ import BaoModel.Ops3
 import BaoModel.Fault
 import BaoModel.Serde
 import BaoModel.Script
+import BaoModel.FaultMixed
 
 /-!
 # Driver operations, part 4: serde (C19), faults (C10), fragmentation (C11)
@@ -273,6 +274,18 @@ def faultTerminal (name : String) (d : List UInt8) (bs : Nat) (kind : StoreKind)
     some fun f => valStr (validOutboardRangesF hf fl (intactStore kind d bs) ranges f).2
   else none
 
+/-- terminal of the fault-aware twin of the item-stream traversal (`BaoModel/FaultMixed.lean`, theorems in
+`Props/C10Mixed.lean`) for a fault on object `o` -/
+def mixedTerminal (d : List UInt8) (bs : Nat) (kind : StoreKind) (ranges : Ranges) (o : String) (k : Nat)
+    (kk : IoKind) : Option String :=
+  let mo : Option MObj := match o with | "data" => some .data | "ob" => some .ob | "s" => some .s | _ => none
+  mo.map fun mo =>
+    match (traverseRangesValidatedF hf d (intactStore kind d bs) ranges (some ⟨mo, k, kk⟩)).2 with
+    | .ok => "Ok"
+    | .errItem e => encErrStr e
+    | .sendErr => "SendErr"
+    | .panic => "panic"
+
 /-- the io calls of the fault-free twin, as `(object, label)`; must agree with the skeleton (minus "obio") -/
 def faultCalls (name : String) (d : List UInt8) (bs : Nat) (kind : StoreKind) (ranges : Ranges) :
     Option (List (String × String)) :=
@@ -289,6 +302,8 @@ def faultCalls (name : String) (d : List UInt8) (bs : Nat) (kind : StoreKind) (r
     some (FEv.calls (validRangesF hf fl (intactStore kind d bs) d ranges none).1)
   else if name.startsWith "validob" then
     some (FEv.calls (validOutboardRangesF hf fl (intactStore kind d bs) ranges none).1)
+  else if name == "mixed" then
+    some (MEv.calls (traverseRangesValidatedF hf d (intactStore kind d bs) ranges none).1)
   else none
 
 /-- `faults opspec stride`: the whole expected report is computed from the call skeleton -/
@@ -334,6 +349,9 @@ def opFaults (args : List String) (impl : String) : Verdict :=
                     let fo : Option FObj := match o with
                       | "data" => some .data | "ob" => some .ob | "w" => some .w
                       | "from" => some .src | "to" => some .dst | _ => none
+                    if name == "mixed" then
+                      (mixedTerminal d bs kind ranges o k kk).getD (expectFault name e kd)
+                    else
                     match fo, faultTerminal name d bs kind ranges with
                     | some fo, some f => f (some ⟨fo, k, kk⟩)
                     | _, _ => expectFault name e kd
